@@ -121,9 +121,13 @@ def s_ret(e=None):
 
 def func(name, ret, params, body, variadic=False):
     return {"name": name, "ret": ret, "params": [{"n": n, "t": t} for n, t in params], "body": body, "variadic": variadic}
-def struct(name, fields):
+def struct(name, fields, union=False):
     """fields: (name, type, bitwidth[, alignas])"""
-    return {"name": name, "fields": [{"n": f[0], "t": f[1], "bw": f[2], "al": f[3] if len(f) > 3 else 0} for f in fields]}
+    d = {"name": name, "fields": [{"n": f[0], "t": f[1], "bw": f[2], "al": f[3] if len(f) > 3 else 0} for f in fields]}
+    if union:
+        d["union"] = True
+    return d
+def i_um(member, init): return {"um": member, "i": init}      # union initialiser { .member = init }
 def program(structs, globals_, funcs, charsigned=True): return {"charsigned": charsigned, "structs": structs, "globals": globals_, "funcs": funcs}
 
 
@@ -135,7 +139,7 @@ def ctype(t, structs, inner=""):
     if t["k"] == "f":
         return (t["n"] + " " + inner).rstrip()
     if t["k"] == "s":
-        return ("struct %s %s" % (structs[t["id"] - 1]["name"], inner)).rstrip()
+        return ("%s %s %s" % ("union" if structs[t["id"] - 1].get("union") else "struct", structs[t["id"] - 1]["name"], inner)).rstrip()
     if t["k"] == "fp":
         return ctype(t["ret"], structs, "(*%s)(%s)" % (inner, ", ".join(ctype(q, structs) for q in t["ps"]) or "void"))
     if t["k"] == "p":
@@ -219,6 +223,8 @@ def rexpr(e, structs):
 def rinit(i, structs):
     if "e" in i:
         return rexpr(i["e"], structs)
+    if "um" in i:
+        return "{.%s = %s}" % (i["um"], rinit(i["i"], structs))
     return "{" + ", ".join(rinit(x, structs) for x in i["list"]) + "}"
 
 
@@ -300,7 +306,7 @@ def render(p):
     st = p["structs"]
     o = "void obs(long long);\n"
     for s in st:
-        o += "struct %s {\n" % s["name"]
+        o += "%s %s {\n" % ("union" if s.get("union") else "struct", s["name"])
         for f in s["fields"]:
             o += "\t" + ("_Alignas(%d) " % f["al"] if f.get("al") else "") + ctype(f["t"], st, f["n"]) + (" : %d" % f["bw"] if f["bw"] else "") + ";\n"
         o += "};\n"
